@@ -129,8 +129,7 @@ Definition unit_op (o : op) : bool :=
 Definition str_op (o : op) : bool :=
   match o with Realpath _ | Abspath _ | ReadText _ | Input _ => true | _ => false end.
 
-Lemma valid_bool o r : bool_op o = true -> valid_res o r = true ->
-  (exists b, r = RBool b) \/ (exists n, r = RErr (OSError n)).
+Lemma valid_bool o r : bool_op o = true -> valid_res o r = true -> exists b, r = RBool b.
 Proof. destruct o; try discriminate; intros _; destruct r as [| | | | | | |[]]; simpl; try discriminate; eauto. Qed.
 Lemma valid_unit o r : unit_op o = true -> valid_res o r = true ->
   r = RUnit \/ (exists e, r = RErr e /\ is_OSError e = true).
@@ -229,6 +228,93 @@ Proof.
 Qed.
 End Safe.
 
+(* ---------------------------------------------------------------------------------------------
+   Any-state safety for a stateful monitor: from EVERY monitor state, all operations of all runs of m
+   are accepted, and a normal return value satisfies Q.  (For a stateless monitor this is `safe`.) *)
+Definition asafe {M} (step : M -> op -> res -> option M) {A} (m : prog A) (Q : A -> Prop) : Prop :=
+  forall s, wp step m (fun _ a => Q a) (fun _ _ => True) s.
+
+Section ASafe.
+Context {M : Type}.
+Variable step : M -> op -> res -> option M.
+
+Lemma asafe_ret {A} (a : A) (Q : A -> Prop) : Q a -> asafe step (Ret a) Q.
+Proof. intros H s; exact H. Qed.
+Lemma asafe_throw {A} e (Q : A -> Prop) : asafe step (Throw e) Q.
+Proof. intros s; exact I. Qed.
+Lemma asafe_mono {A} (m : prog A) (Q Q' : A -> Prop) : (forall a, Q a -> Q' a) -> asafe step m Q -> asafe step m Q'.
+Proof. intros HQ H s. eapply wp_mono; [| |apply H]; simpl; auto. Qed.
+Lemma asafe_bind {A B} (m : prog A) (f : A -> prog B) (Q' : A -> Prop) (Q : B -> Prop) :
+  asafe step m Q' -> (forall a, Q' a -> asafe step (f a) Q) -> asafe step (bind m f) Q.
+Proof.
+  intros Hm Hf s. apply wp_bind. eapply wp_mono; [| |apply Hm]; simpl; auto.
+  intros s' a Ha. apply Hf. exact Ha.
+Qed.
+Lemma asafe_seq {A B} (m : prog A) (k : prog B) (Q : B -> Prop) :
+  asafe step m (fun _ => True) -> asafe step k Q -> asafe step (bind m (fun _ => k)) Q.
+Proof. intros. eapply asafe_bind; eauto. Qed.
+Lemma asafe_catch {A} (m : prog A) (h : exn -> option (prog A)) (Q : A -> Prop) :
+  asafe step m Q -> (forall e p, h e = Some p -> asafe step p Q) -> asafe step (catch m h) Q.
+Proof.
+  intros Hm Hh s. apply wp_catch. eapply wp_mono; [| |apply Hm]; simpl; auto.
+  intros s' e _. destruct (h e) eqn:He; [|exact I]. apply (Hh e p He).
+Qed.
+Definition accepted (o : op) : Prop := forall s r, valid_res o r = true -> exists s', step s o r = Some s'.
+Lemma asafe_call (o : op) (Q : res -> Prop) :
+  accepted o -> (forall r, valid_res o r = true -> match r with RErr _ => True | _ => Q r end) ->
+  asafe step (call o) Q.
+Proof.
+  intros Ha H s. apply wp_call. intros r Hv. destruct (Ha s r Hv) as [s' Hs]. exists s'.
+  split; [exact Hs|]. specialize (H r Hv). destruct r; auto.
+Qed.
+Lemma asafe_call_any (o : op) : accepted o -> asafe step (call o) (fun _ => True).
+Proof. intros H. apply asafe_call; [exact H|]. intros r _. destruct r; auto. Qed.
+
+Ltac acall_any H := eapply asafe_bind; [apply (asafe_call_any _ H)|]; intros [] _; try apply asafe_throw; apply asafe_ret; exact I.
+
+Lemma asafe_call_bool o : accepted o -> asafe step (call_bool o) (fun _ => True).
+Proof. intros H. unfold call_bool. acall_any H. Qed.
+Lemma asafe_call_unit o : accepted o -> asafe step (call_unit o) (fun _ => True).
+Proof. intros H. unfold call_unit. eapply asafe_bind; [apply (asafe_call_any _ H)|]. intros; apply asafe_ret; exact I. Qed.
+Lemma asafe_call_str o : accepted o -> asafe step (call_str o) (fun _ => True).
+Proof. intros H. unfold call_str. acall_any H. Qed.
+Lemma asafe_call_list o : accepted o -> asafe step (call_list o) (fun _ => True).
+Proof. intros H. unfold call_list. acall_any H. Qed.
+Lemma asafe_call_stat o : accepted o -> asafe step (call_stat o) (fun _ => True).
+Proof. intros H. unfold call_stat. acall_any H. Qed.
+Lemma asafe_call_z o : accepted o -> asafe step (call_z o) (fun _ => True).
+Proof. intros H. unfold call_z. acall_any H. Qed.
+Lemma asafe_call_date o : accepted o -> asafe step (call_date o) (fun _ => True).
+Proof. intros H. unfold call_date. acall_any H. Qed.
+Lemma asafe_listdir p : accepted (Listdir p) ->
+  asafe step (call_list (Listdir p)) (fun l => forallb valid_name l = true).
+Proof.
+  intros H. unfold call_list. eapply asafe_bind.
+  - apply (asafe_call (Listdir p) (fun r => valid_res (Listdir p) r = true) H).
+    intros r Hv. destruct r; auto.
+  - intros r Hv. destruct r; try apply asafe_throw. apply asafe_ret. exact Hv.
+Qed.
+Lemma asafe_for_each {A} (l : list A) (body : A -> prog unit) :
+  (forall x, In x l -> asafe step (body x) (fun _ => True)) -> asafe step (for_each l body) (fun _ => True).
+Proof.
+  induction l as [|x l IH]; simpl; intros Hb; [apply asafe_ret; exact I|].
+  apply asafe_seq; [apply Hb; auto|apply IH; auto].
+Qed.
+Lemma asafe_sound {A} (m : prog A) Q s : asafe step m Q ->
+  all_runs (fun t out => accepts step s t <> None /\ match out with Done a => Q a | _ => True end) m.
+Proof.
+  intros H. eapply all_runs_mono; [|apply (wp_sound step m _ _ s (H s))].
+  intros t out [s' [Ha Ho]]. split; [rewrite Ha; discriminate|]. destruct out; auto.
+Qed.
+End ASafe.
+
+Lemma asafe_of_safe ok {A} (m : prog A) Q : safe ok m Q -> asafe (sstep ok) m Q.
+Proof. intros H []. exact H. Qed.
+Lemma safe_of_asafe ok {A} (m : prog A) Q : asafe (sstep ok) m Q -> safe ok m Q.
+Proof. intros H. exact (H tt). Qed.
+Lemma accepted_sstep ok o : (forall r, valid_res o r = true -> ok o r = true) -> accepted (sstep ok) o.
+Proof. intros H s r Hv. exists tt. unfold sstep. rewrite (H r Hv). reflexivity. Qed.
+
 (* bridges between the two layers *)
 Section Bridge.
 Context {M : Type}.
@@ -254,6 +340,7 @@ Qed.
 End Bridge.
 
 Global Arguments safe : simpl never.
+Global Arguments asafe : simpl never.
 Global Arguments wp : simpl never.
 Global Arguments bind : simpl never.
 Global Arguments catch : simpl never.
